@@ -2,9 +2,12 @@ package props
 
 import (
 	"fmt"
+	"github.com/semafind/semadb/diskstore"
 	"math/rand/v2"
 	"os"
+	"semaverif/proxy"
 	"strings"
+	"sync/atomic"
 	"time"
 
 	"github.com/google/uuid"
@@ -29,7 +32,7 @@ func init() { fw.Register(c03{}); fw.Register(c10{}) }
 func (c03) ID() string    { return "C03" }
 func (c03) Level() string { return "exploration" }
 func (c03) Rule() string {
-	return "unit = (graph state, vamana search request): histories of inserts, vector updates, vector removal via \"_delete\", vectors added by update, deletes of whole neighbourhoods, delete-all and id reuse, for metrics x quantisers (none, binary fixed/learned, product) x (degreeBound, alpha, searchSize) corners; after every batch 30 searches with limits 1..75, search sizes 25..75, weights {nil,0,negative,large} and pre-filters of size 0, 1, searchSize, searchSize+1, all. Every result is checked (live, has the field, inside the model-evaluated filter, no duplicate, not the entry node, <= limit, non-decreasing distances, reported distance = index distance recomputed from the stored vector / persisted quantiser state, hybrid = -weight*distance, no search error). Exact top-k is demanded only in regime (i) insert-only histories with at most min(degreeBound, searchSize-1) vectors and regime (ii) pre-filters with at most searchSize members. Non-trivial = at least one result and (a deleted/updated point exists, or a filter is set, or a regime applies); distinct by (graph digest, request)."
+	return "unit = (graph state, vamana search request): histories of inserts, vector updates, vector removal via \"_delete\", vectors added by update, deletes of whole neighbourhoods, delete-all and id reuse, for metrics x quantisers (none, binary fixed/learned, product) x (degreeBound, alpha, searchSize) corners; after every batch 30 searches with limits 1..75, search sizes 25..75, weights {nil,0,negative,large} and pre-filters of size 0, 1, searchSize, searchSize+1, all. Every result is checked (live, has the field, inside the model-evaluated filter, no duplicate, not the entry node, <= limit, non-decreasing distances, reported distance = index distance recomputed from the stored vector / persisted quantiser state, hybrid = -weight*distance, no search error). Exact top-k is demanded only in regime (i) insert-only histories with at most min(degreeBound, searchSize-1) vectors and regime (ii) pre-filters with at most searchSize members. Non-trivial = at least one result and (a deleted/updated point exists, or a filter is set, or a regime applies); distinct by (graph digest, request). Plus cold pairs: tiny insert-only histories on a shard with the cache disabled (every batch starts cold), two to four points per request, seeded pauses at storage reads - every stored vector must be found."
 }
 func (c03) Assumptions() []string {
 	return []string{"approximate search outside the two regimes is only held to per-result validity (recall is reported, never judged)", "cosine vectors unit-normalised", "quantised distances are recomputed from persisted thresholds/centroids and codes"}
@@ -108,7 +111,88 @@ func vamanaCases(prop string, tier string, seed uint64) []fw.Case {
 	return cs
 }
 
-func (c03) Cases(tier string, seed uint64) []fw.Case { return vamanaCases("C03", tier, seed) }
+func (c03) Cases(tier string, seed uint64) []fw.Case {
+	cs := vamanaCases("C03", tier, seed)
+	// cold pairs: see c03ColdPairs
+	n, hist := 12, 300
+	if tier == "thorough" {
+		n, hist = 32, 900
+	}
+	for i := 0; i < n; i++ {
+		cs = append(cs, fw.Case{Seed: fw.CaseSeed(seed, "C03cold", i), Name: fmt.Sprintf("cold-pairs%d", i), Params: map[string]any{"cold_histories": hist}})
+	}
+	return cs
+}
+
+// c03ColdPairs: many tiny insert-only histories on a file-backed shard whose cache is disabled, so
+// every batch starts cold: one point, then two or three points in ONE request, then two more. The
+// insert workers of a request run concurrently and all have to fetch the same few nodes (the entry
+// node, the first point) from storage; storage reads pause now and then. The collection always fits
+// inside the search window and was built by inserts, so every search must return every stored
+// vector: a back edge lost between two workers shows as a vector that is never found.
+func c03ColdPairs(c fw.Case, env *fw.Env) *fw.CaseResult {
+	res := fw.NewResult()
+	rng := rand.New(rand.NewPCG(c.Seed, 303))
+	vc := vecConfig{Name: "cold", Metric: models.DistanceEuclidean, Dim: 3, Quant: "none"}
+	schema := vectorSchema("vamana", vc, 75, 32, 1.2)
+	for h := 0; h < c.Int("cold_histories", 100); h++ {
+		path := shardPath(env, fmt.Sprintf("cold%d", h))
+		s, err := sx.Open(path, schema, cache.NewManager([]int64{0, 0, 1500}[h%3]), 0)
+		if err != nil {
+			res.Inconclusive++
+			return res
+		}
+		var px *proxy.Proxy
+		s.Shard.VerifWrapDiskStore(func(ds diskstore.DiskStore) diskstore.DiskStore {
+			px = proxy.Wrap(ds)
+			return px
+		})
+		var pauses atomic.Uint64
+		hs := c.Seed + uint64(h)
+		px.OpHook = func(bucket, kind string, key []byte) {
+			if kind == "get" && strings.HasPrefix(bucket, "index/") && fw.SplitMix(hs^pauses.Add(1))%3 == 0 {
+				time.Sleep(time.Duration(100+fw.SplitMix(hs+pauses.Load())%600) * time.Microsecond)
+			}
+		}
+		g := gen.New(hs, schema)
+		g.NoLattice = true
+		m := model.New()
+		for step, n := range []int{1, 2 + rng.IntN(2), 2, 1 + rng.IntN(4)} {
+			op := gen.Op{Kind: gen.OpInsert, Tag: fmt.Sprintf("cold-insert-%d", n)}
+			for i := 0; i < n; i++ {
+				op.Points = append(op.Points, model.Point{Id: g.NewId(), Doc: model.Doc{"v": g.Vector(3, models.DistanceEuclidean)}})
+			}
+			ok, _ := applyOp(res, "C03", s, m, op, step)
+			if !ok {
+				s.Close()
+				return res
+			}
+			hits, err := s.Search(models.SearchRequest{Query: models.Query{Property: "v", VectorVamana: &models.SearchVectorVamanaOptions{Vector: g.Vector(3, models.DistanceEuclidean), Operator: models.OperatorNear, SearchSize: 75, Limit: 75}}, Limit: 100})
+			res.Eval(n >= 2, "cold-pairs", hs, step)
+			res.Stat("cold_batches", 1)
+			if err != nil {
+				res.Violate("search-error", "C03:cold-search:"+errClass(err), fmt.Sprintf("history %d step %d: search failed: %v", h, step, err), nil)
+				continue
+			}
+			got := map[uuid.UUID]bool{}
+			for _, hh := range hits {
+				got[hh.Id] = true
+			}
+			for _, id := range m.SortedIds() {
+				if !got[id] {
+					res.Violate("vamana-missing-exact", "C03:cold-pairs-missing", fmt.Sprintf("history %d: after inserting %d points in one request into a graph read cold (%d stored vectors in all, search window 75) a search returns %d results and misses %s", h, n, len(m.Docs), len(hits), id), nil)
+					break
+				}
+			}
+		}
+		s.Close()
+		os.RemoveAll(path)
+		if len(res.Violations) > 6 {
+			break
+		}
+	}
+	return res
+}
 func (c10) Cases(tier string, seed uint64) []fw.Case {
 	cs := vamanaCases("C10", tier, seed)
 	// many fresh graphs built by ONE insert batch each, with vectors of a dimension at which nodes really
@@ -132,7 +216,12 @@ func (c10) Cases(tier string, seed uint64) []fw.Case {
 	return cs
 }
 
-func (c03) RunCase(c fw.Case, env *fw.Env) *fw.CaseResult { return runVamana(c, env, "C03") }
+func (c03) RunCase(c fw.Case, env *fw.Env) *fw.CaseResult {
+	if c.Int("cold_histories", 0) > 0 {
+		return c03ColdPairs(c, env)
+	}
+	return runVamana(c, env, "C03")
+}
 func (c10) RunCase(c fw.Case, env *fw.Env) *fw.CaseResult {
 	if c.Int("race_rounds", 0) > 0 {
 		return c10InsertRace(c, env)
@@ -472,6 +561,24 @@ func runVamana(c fw.Case, env *fw.Env, prop string) *fw.CaseResult {
 		return res
 	}
 	defer s.Close()
+	if style == "small-insert-only" {
+		// The insert workers of one batch run concurrently. When the index cache is cold at the start
+		// of a batch they all miss on the same few nodes (the entry node first) and read them from
+		// storage at the same moment. Storage reads pause now and then, and the cache is released
+		// before half of the batches: in this style the index is small enough for searches to be
+		// exact, so an edge lost between two such workers shows as a stored vector that is not found.
+		var px *proxy.Proxy
+		s.Shard.VerifWrapDiskStore(func(ds diskstore.DiskStore) diskstore.DiskStore {
+			px = proxy.Wrap(ds)
+			return px
+		})
+		var pauses atomic.Uint64
+		px.OpHook = func(bucket, kind string, key []byte) {
+			if kind == "get" && strings.HasPrefix(bucket, "index/") && fw.SplitMix(c.Seed^pauses.Add(1))%6 == 0 {
+				time.Sleep(200 * time.Microsecond)
+			}
+		}
+	}
 	m := model.New()
 	h := gen.NewHistory(g)
 	h.MaxBatch = 35
@@ -545,6 +652,10 @@ func runVamana(c fw.Case, env *fw.Env, prop string) *fw.CaseResult {
 		}
 		if op.Kind != gen.OpInsert && op.Size() > 0 {
 			mutated = true
+		}
+		if insertOnly && g.R.IntN(2) == 0 {
+			cm.Release(path + "/" + indexBucket(vp, sv))
+			res.Stat("batches_started_on_a_released_cache", 1)
 		}
 		mBefore := m.Clone()
 		ok, out := applyOp(res, prop, s, m, op, step)
